@@ -26,6 +26,14 @@ def run(tier, seed):
         ck.add_mc(gg, "Gen_JsonGrammar(for C06)")
         gt = vlib.must_hold(vlib.tlc("JsonTypes", "Gen_JsonTypes.cfg", workers=8, sink=sink, tag="JsonTypes-c06"), "shapes")
         ck.add_mc(gt, "Gen_JsonTypes(for C06)")
+        # three (thorough: four) constructors deep over a seeded subset of leaf kinds: how a value sits in an interface
+        # word (by value / by pointer) depends on the whole chain of single-field structs, arrays and pointers
+        import random
+        from props import jsoncommon
+        sub = sorted(random.Random(seed).sample(jsoncommon.LEAVES, 5 if thorough else 3))
+        gd = vlib.must_hold(vlib.tlc("JsonTypes", "Gen_JsonTypes.cfg", workers=vlib.NCPU, sink=sink, tag="JsonTypes-c06deep", timeout=3000,
+                                     defines={"MaxDepth": 4 if thorough else 3, "LeafKinds": jsoncommon.tla_set(sub)}), "shapes (deep)")
+        ck.add_mc(gd, "Gen_JsonTypes(for C06, depth %d, kinds %s)" % (4 if thorough else 3, ",".join(sub)))
     # de-duplicate (the heap generator reports each graph once per way of building it)
     seen, out = set(), []
     for line in open(vec):
